@@ -226,6 +226,12 @@ pub fn check_converged(nodes: &[NodeH], n_ks: usize, when: &str) -> Result<(), F
         for n in nodes {
             let got: BTreeMap<u64, (Stamp, Vec<u8>)> =
                 n.store.docs(&name).into_iter().map(|(id, (ts, b))| (id, (Stamp::of(ts), b))).collect();
+            if std::env::var("VP_DEBUG").is_ok() {
+                eprintln!("DEBUG {when}: node {} {name}: {:?}", n.id, got.iter().map(|(id, (s, _))| format!("{id}@{}", s.json())).collect::<Vec<_>>());
+                let g = n.store.inner.lock();
+                eprintln!("DEBUG   write log: {:?}", g.log.iter().filter(|(k, ..)| *k == name).map(|(_, id, ts, b)| format!("{id}@{}{}", Stamp::of(*ts).json(), if b.is_none() { " DEL" } else { "" })).collect::<Vec<_>>());
+                eprintln!("DEBUG   metadata: {:?}", g.data.get(&name).map(|m| m.iter().map(|(id, (ts, d))| format!("{id}@{}{}", Stamp::of(*ts).json(), if d.is_none() { " TOMB" } else { "" })).collect::<Vec<_>>()));
+            }
             if got != expect {
                 let brief = |m: &BTreeMap<u64, (Stamp, Vec<u8>)>| -> Vec<String> {
                     m.iter().map(|(id, (s, b))| format!("{id}@{}[{}B]", s.json(), b.len())).collect()
